@@ -105,9 +105,10 @@ func (s *snap) expectFind(prefix, start []byte, max int) []kv {
 }
 
 // expectSeek is the reference of a Store.Seek restricted to contract storage
-// (storage.SeekRange doc): keys with the prefix, from prefix+start inclusive,
-// ascending, or descending from prefix+start when backwards.
-func (s *snap) expectSeek(prefix, start []byte, backwards bool) (res []kv, ext []kv) {
+// (storage.SeekRange doc, ordered-map semantics): keys with the prefix, from
+// prefix+start inclusive ascending, or the keys <= prefix+start descending
+// when backwards; an empty start means all keys with the prefix.
+func (s *snap) expectSeek(prefix, start []byte, backwards bool) (res []kv) {
 	p := string(prefix)
 	lo, hi := s.rangeOf(p)
 	from := p + string(start)
@@ -119,21 +120,16 @@ func (s *snap) expectSeek(prefix, start []byte, backwards bool) (res []kv, ext [
 		for ; i < hi; i++ {
 			res = append(res, kv{s.Keys[i], s.M[s.Keys[i]]})
 		}
-		return res, nil
+		return res
 	}
 	for i := hi - 1; i >= lo; i-- {
 		k := s.Keys[i]
 		if len(start) > 0 && k > from {
-			if strings.HasPrefix(k, from) {
-				// Keys extending prefix+start: the Store implementations of the
-				// repository disagree on them and the doc does not decide it.
-				ext = append(ext, kv{k, s.M[k]})
-			}
 			continue
 		}
 		res = append(res, kv{k, s.M[k]})
 	}
-	return res, ext
+	return res
 }
 
 func hx(s string) string { return hex.EncodeToString([]byte(s)) }
